@@ -183,3 +183,73 @@ def borrow(ctx: Ctx, out: list, module: str, rules: list[str], why: str) -> None
             for f in r2.findings:
                 f.rule = r2.rule
             out.append(r2)
+
+
+# ---- copy propagation: rules match on what a local *is*, not on what it is called ----------------------
+
+
+def single_defs(fn_node: ast.AST) -> dict[str, ast.expr]:
+    """Local names of a function that are bound exactly once, by a plain `name = <expr>` (no augmented/loop/with/walrus/tuple
+    binding, not a parameter): name -> defining expression."""
+    counts: dict[str, int] = {}
+    defs: dict[str, ast.expr] = {}
+    params = set()
+    if isinstance(fn_node, (ast.FunctionDef, ast.AsyncFunctionDef)):
+        a = fn_node.args
+        params = {x.arg for x in a.posonlyargs + a.args + a.kwonlyargs} | ({a.vararg.arg} if a.vararg else set()) | ({a.kwarg.arg} if a.kwarg else set())
+    for n in own_nodes(fn_node):
+        tgts: list[ast.expr] = []
+        val = None
+        if isinstance(n, ast.Assign):
+            tgts, val = list(n.targets), n.value
+        elif isinstance(n, ast.AnnAssign) and n.value is not None:
+            tgts, val = [n.target], n.value
+        elif isinstance(n, (ast.AugAssign,)):
+            tgts = [n.target]
+        elif isinstance(n, (ast.For, ast.AsyncFor, ast.comprehension)):
+            tgts = [n.target]
+        elif isinstance(n, ast.NamedExpr):
+            tgts = [n.target]
+        elif isinstance(n, (ast.With, ast.AsyncWith)):
+            tgts = [i.optional_vars for i in n.items if i.optional_vars is not None]
+        elif isinstance(n, ast.ExceptHandler) and n.name:
+            counts[n.name] = counts.get(n.name, 0) + 2
+        for t in tgts:
+            for x in ast.walk(t):
+                if isinstance(x, ast.Name) and isinstance(x.ctx, (ast.Store, ast.Del)):
+                    plain = isinstance(n, (ast.Assign, ast.AnnAssign)) and t is x and val is not None
+                    counts[x.id] = counts.get(x.id, 0) + (1 if plain else 2)
+                    if plain:
+                        defs[x.id] = val  # type: ignore[assignment]
+    return {k: v for k, v in defs.items() if counts.get(k) == 1 and k not in params}
+
+
+def expand(fn_node: ast.AST, e: ast.AST, depth: int = 4) -> ast.AST:
+    """`e` with every singly-defined local replaced by its definition (recursively): hoisting an expression into a local, or
+    inlining one, does not change what a rule sees. Only side-effect-free definitions are inlined (names, attributes,
+    subscripts, constants, arithmetic, f-strings, tuples) - a call result is not duplicated."""
+    defs = single_defs(fn_node)
+
+    def pure(x: ast.AST) -> bool:
+        return not any(isinstance(y, (ast.Call, ast.Await, ast.Yield, ast.YieldFrom, ast.NamedExpr, ast.Lambda)) for y in ast.walk(x))
+
+    def clone(node, d):
+        if isinstance(node, ast.Name) and isinstance(node.ctx, ast.Load) and node.id in defs and d > 0 and pure(defs[node.id]):
+            return clone(defs[node.id], d - 1)
+        if isinstance(node, ast.AST):
+            new = type(node)()
+            for fld in node._fields:
+                v = getattr(node, fld, None)
+                setattr(new, fld, [clone(x, d) for x in v] if isinstance(v, list) else clone(v, d))
+            for a in ("lineno", "col_offset", "end_lineno", "end_col_offset"):
+                if hasattr(node, a):
+                    setattr(new, a, getattr(node, a))
+            return new
+        return node
+
+    return clone(e, depth)
+
+
+def xnorm(fn_node: ast.AST, e: ast.AST) -> str:
+    """norm() of the copy-propagated expression."""
+    return norm(expand(fn_node, e))
